@@ -310,6 +310,28 @@ func init() {
 		}
 		return i64(-1)
 	})
+	setIntrinsic("internal/bytealg.CountString", func(ex *Exec, fn *ssa.Function, a []Value) Value {
+		s := a[0].(*StrV)
+		c := a[1].(*Term)
+		n := 0
+		for i := range s.B {
+			if ex.branch(Eq(s.B[i], c)) {
+				n++
+			}
+		}
+		return i64(int64(n))
+	})
+	setIntrinsic("internal/bytealg.Count", func(ex *Exec, fn *ssa.Function, a []Value) Value {
+		s := a[0].(*SliceV)
+		c := a[1].(*Term)
+		n := 0
+		for i, m := 0, ex.concInt(s.Len); i < m; i++ {
+			if ex.branch(Eq(s.Arr.cell(s.Off+i).V.(*Term), c)) {
+				n++
+			}
+		}
+		return i64(int64(n))
+	})
 	setIntrinsic("internal/bytealg.MakeNoZero", func(ex *Exec, fn *ssa.Function, a []Value) Value {
 		n := a[0].(*Term)
 		return ex.makeSlice(types.Typ[types.Uint8], n, n)
